@@ -440,6 +440,44 @@ def run(ctx):
                 pass
         if len(fails) > 5:
             break
+    # directed (round 9): incremental cells of ONE slice at the same period and evaluation date that differ only in
+    # prev_evaluation_date (accepted with a DuplicateCellWarning), every cell carrying its OWN Metadata object, equal to the
+    # others (as derive_metadata / from_* hand them out): the tie-break must not depend on object identity or input order
+    from bermuda import IncrementalCell as _IncR, Metadata as _MetaR
+    import itertools as _it
+
+    for variant in range(3):
+        mk_meta = [lambda: _MetaR(country="DE", details={"lob": "motor", "seg": 1}),
+                   lambda: _MetaR(loss_details={"peril": "wind"}, per_occurrence_limit=1000),
+                   lambda: _MetaR()][variant]
+        ps, pe, ev = datetime.date(2021, 1, 1), datetime.date(2021, 3, 31), datetime.date(2021, 6, 30)
+        prevs = [datetime.date(2019, 12, 31), datetime.date(2020, 12, 31), datetime.date(2021, 3, 31)]
+        rest = [_IncR(period_start=ps, period_end=pe, evaluation_date=ev, prev_evaluation_date=p, values={"paid_loss": i}, metadata=mk_meta())
+                for i, p in enumerate(prevs)]
+        rest.append(_IncR(period_start=ps, period_end=pe, evaluation_date=datetime.date(2021, 9, 30), prev_evaluation_date=ev,
+                          values={"paid_loss": 9}, metadata=mk_meta()))
+        ctx.hist("layout:directed-restated-incremental-distinct-metadata-objects")
+        base = None
+        with warnings.catch_warnings():
+            warnings.simplefilter("ignore")
+            for perm in _it.permutations(rest):
+                perm = list(perm)
+                try:
+                    t = Triangle(perm)
+                except Exception as ex:  # noqa: BLE001
+                    fails.append(("constructor-raised", repr(ex), perm, None, "list"))
+                    break
+                ctx.count(evaluations=1, traces=1)
+                seq = strict_seq(t)
+                if base is None:
+                    base = (seq, perm)
+                    got = [c.prev_evaluation_date for c in t.cells]
+                    if got != sorted(got):
+                        fails.append(("not-canonical", [f"prev_evaluation_date not ascending inside (period, evaluation date): {got}"], perm, None, "list"))
+                        break
+                elif seq != base[0]:
+                    fails.append(("order-depends-on-input", "list vs list", base[1], perm, "list"))
+                    break
     # directed: periods that share a start (or an end) inside ONE slice, with evaluation dates that conflict with
     # the period order -- the key (start, end, evaluation) and any other arrangement of it disagree here only
     from bermuda import Cell as _Cell, CumulativeCell as _Cum, IncrementalCell as _Inc
